@@ -628,6 +628,38 @@ def in_memory_get(props=None):
     return [info], obl, {'paths': n, 'forks': ex.forks}
 
 
+def in_memory_last_id(props=None):
+    """`get_last_recording_id` (the helper the repository's own tests and examples use to find what to replay) after `save_recording` on an
+    ARBITRARY cassette state: it names the recording just saved, that id is stored, and a save that raises leaves the last id where it was"""
+    repo, spec, ex = mk()
+    m, cls, save, info_s = repo.find(TC + 'save_recording'); _, _, isave, info_is = repo.find(IM + '_save_recording')
+    _, _, last, info_l = repo.find(IM + 'get_last_recording_id')
+    IMM = 'playback.tape_cassettes.in_memory.in_memory_tape_cassette'
+    st = St(); selfv = st.sym_obj('self', 'InMemoryTapeCassette'); store = st.sym_obj('store', 'OrderedDict'); st.wr(selfv, '_recordings', store)
+    for f_, kd_ in learn_fields(repo, 'InMemoryTapeCassette').items():
+        if f_ != '_recordings':
+            st.wr(selfv, f_, st.sym_obj(f_.strip('_'), kd_))
+    last0 = fresh('last_id_before'); st.assume(z3.Or(last0 == NONE, Val.is_s(last0))); st.wr(selfv, '_last_id', last0)
+    rec, d, mt, rid = sym_recording(st)
+    st.assume(z3.Distinct(Val.addr(store), Val.addr(d), Val.addr(mt), Val.addr(rec), Val.addr(selfv)))
+    P = ('C07', 'C01'); obl = []; n = 0
+    # before any save: exactly what the cassette state holds (None on a new cassette -- `__init__` is executed by learn_fields)
+    for s0, r in ex.call_function(st.copy(), last, IMM, 'InMemoryTapeCassette', None, [selfv], {}, 'get_last_recording_id'):
+        n += 1
+        obl.append(Obl('C07/InMemoryTapeCassette/get_last_recording_id/reads_the_last_id_only', P, s0, r[1] == last0 if r[0] == 'val' else z3.BoolVal(False), r))
+    st.push({'self': selfv, 'recording': rec}, None, ('playback.tape_cassette', 'TapeCassette', save))
+    for s1, oc in ex.block(save.body, st):
+        n += 1
+        if oc[0] == 'raise':
+            obl.append(Obl('C07/InMemoryTapeCassette/save/failed_save_keeps_last_id', P, s1, s1.rd(selfv, '_last_id') == last0, oc)); continue
+        s1.pop()
+        for s2, r in ex.call_function(s1.copy(), last, IMM, 'InMemoryTapeCassette', None, [selfv], {}, 'get_last_recording_id'):
+            n += 1
+            obl.append(Obl('C07/InMemoryTapeCassette/get_last_recording_id/names_the_recording_just_saved', P, s2,
+                           z3.And(r[1] == Val.s(rid), s2.dhas(store, Val.s(rid))) if r[0] == 'val' else z3.BoolVal(False), r))
+    return [info_s, info_is, info_l], obl, {'paths': n, 'forks': ex.forks}
+
+
 def base_cassette_misc(props=None):
     """TapeCassette.abort_recording closes the recording and stores nothing; Recording.__getitem__ is get_data; __exit__ closes the cassette"""
     obl = []; infos = []; n = 0
